@@ -41,6 +41,7 @@ import (
 	"syscall"
 	"time"
 
+	"github.com/fabiolb/fabio/route"
 	"google.golang.org/grpc"
 	"google.golang.org/grpc/credentials"
 	"google.golang.org/grpc/credentials/insecure"
@@ -60,6 +61,8 @@ type ServeRoute struct {
 	Scheme string `json:"scheme"` // grpc | grpcs
 	Skip   bool   `json:"skip,omitempty"`
 	SN     string `json:"sn,omitempty"`
+	// Access is an access-rule option of the route ("" or one of serveAccess); the caller's address is 127.0.0.1
+	Access string `json:"access,omitempty"`
 }
 
 type ServeCall struct {
@@ -447,6 +450,7 @@ func runServe(raw json.RawMessage) (interface{}, error) {
 		return nil, err
 	}
 	var routes bytes.Buffer
+	denied := []bool{}
 	for i, r := range c.Routes {
 		if r.B < 0 || r.B >= serveBackends || (r.Scheme != "grpc" && r.Scheme != "grpcs") || strings.ContainsAny(r.SN, " \"\n\r\t=") {
 			return nil, fmt.Errorf("bad route")
@@ -458,7 +462,25 @@ func runServe(raw json.RawMessage) (interface{}, error) {
 		if r.SN != "" {
 			opts += " grpcservername=" + r.SN
 		}
-		fmt.Fprintf(&routes, "route add r%d /svc.r%d %s://%s opts \"%s\"\n", i, i, r.Scheme, env.backends[r.B].addr, opts)
+		if r.Access != "" {
+			ok := false
+			for _, a := range serveAccess {
+				ok = ok || a == r.Access
+			}
+			if !ok {
+				return nil, fmt.Errorf("bad access option")
+			}
+			opts += " " + r.Access
+		}
+		cmd := fmt.Sprintf("route add r%d /svc.r%d %s://%s opts \"%s\"\n", i, i, r.Scheme, env.backends[r.B].addr, opts)
+		routes.WriteString(cmd)
+		// oracle for the model's gate parameter: what the target's own access rules (property C12) say about
+		// the caller's address, asked of the real code in-process
+		d, err := serveDenied(cmd)
+		if err != nil {
+			return nil, err
+		}
+		denied = append(denied, d)
 	}
 	// start the child; a reserved port may be taken by another process of this busy machine between the
 	// reservation and fabio's bind: try again with other ports
@@ -565,7 +587,24 @@ func runServe(raw json.RawMessage) (interface{}, error) {
 		return nil, fmt.Errorf("fabio exited during the case: %s", tailStr(logb.String(), 600))
 	default:
 	}
-	return map[string]interface{}{"obs": out, "backends": env.descr, "dial_host": "127.0.0.1"}, nil
+	return map[string]interface{}{"obs": out, "backends": env.descr, "dial_host": "127.0.0.1", "denied": denied}, nil
+}
+
+// serveDenied parses one route command with the repo's parser and asks the resulting target whether its access
+// rules deny a peer at 127.0.0.1 (the address the child sees the harness's calls come from).
+func serveDenied(cmd string) (bool, error) {
+	t, err := route.NewTable(bytes.NewBufferString(cmd))
+	if err != nil {
+		return false, err
+	}
+	for _, rs := range t {
+		for _, r := range rs {
+			for _, tg := range r.Targets {
+				return tg.AccessDeniedAddr(&net.TCPAddr{IP: net.IPv4(127, 0, 0, 1), Port: 40000}), nil
+			}
+		}
+	}
+	return false, fmt.Errorf("route command produced no target")
 }
 
 // serveSeq numbers the calls of a process: the backend's record of a call is found by the id the caller put
@@ -669,6 +708,7 @@ var (
 	serveLimits = []int{0, 0, 700, 1500, 3000}
 	serveSizes  = []int{0, 2, 40, 600, 699, 700, 701, 1400, 1500, 1501, 2900, 3000, 3001, 3500}
 	serveNames  = []string{"", "", "backend.test", "other.test"}
+	serveAccess = []string{"allow=ip:127.0.0.1/32", "allow=ip:10.0.0.0/8", "deny=ip:127.0.0.1/32", "deny=ip:10.0.0.0/8", "allow=ip:127.0.0.0/8,ip:10.1.0.0/16"}
 )
 
 // reachable mirrors what the generator needs to know to keep the recorded finding out of the main share:
@@ -709,6 +749,9 @@ func genServe(r *hx.Rand, i int) interface{} {
 			rt.Skip, rt.SN = per[rt.B].skip, per[rt.B].sn
 		} else if r.Chance(1, 6) {
 			rt.Skip, rt.SN = r.Chance(1, 2), r.Pick(serveNames) // options that must not matter for a grpc target
+		}
+		if j > 0 && r.Chance(1, 5) {
+			rt.Access = r.Pick(serveAccess)
 		}
 		c.Routes = append(c.Routes, rt)
 	}
@@ -778,6 +821,12 @@ func init() {
 			Routes: []ServeRoute{{B: 0, Scheme: "grpc"}, {B: 1, Scheme: "grpc"}},
 			Calls: []ServeCall{{L: 0, R: 0, Req: []int{1500, 3000}, Rep: []int{700}}, {L: 0, R: 1, Req: []int{3001}, Rep: []int{2}},
 				{L: 0, R: 0, Req: []int{2}, Rep: []int{701}}, {L: 0, R: 1, Req: []int{2}, Rep: []int{2, 600}}}},
+		// access rules of the route: a denied call is answered PermissionDenied and reaches nobody
+		ServeCase{Listeners: []ServeListener{{TLS: false}, {TLS: true}},
+			Routes: []ServeRoute{{B: 0, Scheme: "grpc"}, {B: 1, Scheme: "grpc", Access: "deny=ip:127.0.0.1/32"}, {B: 2, Scheme: "grpcs", Skip: true, Access: "allow=ip:10.0.0.0/8"},
+				{B: 1, Scheme: "grpc", Access: "allow=ip:127.0.0.1/32"}, {B: 0, Scheme: "grpc", Access: "deny=ip:10.0.0.0/8"}},
+			Calls: []ServeCall{{L: 0, R: 1, Req: []int{2}, Rep: []int{2}}, {L: 1, R: 2, Req: []int{2}, Rep: []int{2}}, {L: 0, R: 3, Req: []int{2}, Rep: []int{2}},
+				{L: 1, R: 4, Req: []int{40}, Rep: []int{2}}, {L: 1, R: 1, Req: []int{2}}, {L: 0, R: 0, Req: []int{2}, Rep: []int{2}}}},
 		ServeCase{Listeners: []ServeListener{{TLS: true}}, Rx: 700, Tx: 3000,
 			Routes: []ServeRoute{{B: 2, Scheme: "grpcs"}, {B: 0, Scheme: "grpc"}},
 			Calls: []ServeCall{{L: 0, R: 0, Req: []int{700}, Rep: []int{700}}, {L: 0, R: 1, Req: []int{701}}, {L: 0, R: 1, Req: []int{2}, Rep: []int{701}}}},
